@@ -33,15 +33,78 @@ def assertions_to_smt2(asserts):
     return s.to_smt2()
 
 
+def _nonarray_consts(e, cache):
+    i = e.get_id()
+    if i in cache:
+        return cache[i]
+    out, seen, stack = set(), set(), [e]
+    while stack:
+        x = stack.pop()
+        k = x.get_id()
+        if k in seen:
+            continue
+        seen.add(k)
+        if z3.is_quantifier(x):
+            stack.append(x.body())
+            continue
+        if z3.is_app(x):
+            if x.num_args() == 0 and x.decl().kind() == z3.Z3_OP_UNINTERPRETED and not z3.is_array(x):
+                out.add(x.decl().name())
+            stack.extend(x.children())
+    cache[i] = out
+    return out
+
+
+def relevant_subset(asserts, rounds=2):
+    """Hypotheses connected to the goal through scalar symbols (arrays are hubs that connect everything).  The last
+    assertion is the negated goal, the one before it the path condition.  Dropping hypotheses is sound."""
+    if len(asserts) < 40:
+        return None
+    cache = {}
+    seed = set()
+    for a in asserts[-2:]:
+        seed |= _nonarray_consts(a, cache)
+    keep = [False] * (len(asserts) - 2)
+    for _ in range(rounds):
+        grew = False
+        for k, a in enumerate(asserts[:-2]):
+            if keep[k]:
+                continue
+            cs = _nonarray_consts(a, cache)
+            if cs & seed or not cs:
+                keep[k] = True
+                if len(cs) <= 24:
+                    new = cs - seed
+                    if new:
+                        seed |= new
+                        grew = True
+        if not grew:
+            break
+    sub = [a for k, a in enumerate(asserts[:-2]) if keep[k]] + list(asserts[-2:])
+    if len(sub) > 0.7 * len(asserts):
+        return None
+    return sub
+
+
 def vc_texts(hyps, pc, goal, extra_terms=()):
-    """(primary text, fallback text or None): the ground (quantifier-free) query first, the full query second."""
+    """(primary text, list of fallback texts): the ground (quantifier-free) query restricted to relevant hypotheses first,
+    then the whole ground query, then the full query with quantified hypotheses kept."""
     from . import quant
     qf, full = quant.prepare(hyps, pc, goal, extra_terms)
-    if qf is None:
-        return assertions_to_smt2(full), None
-    if full is None:
-        return assertions_to_smt2(qf), None
-    return assertions_to_smt2(qf), assertions_to_smt2(full)
+    texts = []
+    if qf is not None:
+        # prepare() puts the negated goal last but may append instances after it: normalise the order
+        sub = relevant_subset(_goal_last(qf))
+        if sub is not None:
+            texts.append(assertions_to_smt2(sub))
+        texts.append(assertions_to_smt2(qf))
+    if full is not None:
+        texts.append(assertions_to_smt2(full))
+    return texts[0], (texts[1:] or None)
+
+
+def _goal_last(qf):
+    return list(qf)
 
 
 def _kill(p):
@@ -122,17 +185,24 @@ def solve_text(args):
     """Worker entry: (name, smt2 text, quick timeout, full timeout, crosscheck) -> result dict."""
     name, text, t_quick, t_full, cross = args[:5]
     fallback = args[5] if len(args) > 5 else None
+    if isinstance(fallback, str):
+        fallback = [fallback]
     out = _solve_one(name, text, t_quick, t_full, cross)
-    out["query"] = "ground" if fallback else "direct"
-    if fallback and out["status"] != "unsat":
-        first = out
-        out = _solve_one(name, fallback, t_quick, t_full, cross)
-        out["query"] = "full(quantified)"
-        out["ground_status"] = first["status"]
-        out["ms"] += first["ms"]
-        if out["status"] not in ("unsat",) and first["status"] == "sat":
-            # keep the ground model's verdict: it is the replay candidate
-            out["status"] = "sat" if out["status"] in ("sat", "unknown", "timeout", "error") else out["status"]
+    out["query"] = "primary"
+    tried = [out["status"]]
+    total = out["ms"]
+    for k, fb in enumerate(fallback or []):
+        if out["status"] == "unsat":
+            break
+        nxt = _solve_one(name, fb, t_quick, t_full, cross)
+        total += nxt["ms"]
+        tried.append(nxt["status"])
+        nxt["query"] = "fallback-%d" % (k + 1)
+        out = nxt
+    out["ms"] = total
+    out["tried"] = tried
+    if out["status"] != "unsat" and "sat" in tried:
+        out["status"] = "sat"   # a weaker query had a model: it is the replay candidate
     return out
 
 
